@@ -21,7 +21,7 @@ RULE = ("Seeded plans as C01 plus bulk size 1..60 (1, 2, subtree size +-1, > MIB
 ASSUMPTIONS = list(c01.ASSUMPTIONS) + [
     "the agent's GETBULK truncation policies are the conformant ones of RFC 3416 4.2.3 (any prefix that keeps the "
     "non-repeaters and at least one repetition binding)"]
-PROBES = ["dup_oid_in_response", "partial_last_row", "response_ends_in_eom", "column_exhausted_while_other_continues",
+PROBES = ["earlier_overlapping_bulkwalk", "dup_oid_in_response", "partial_last_row", "response_ends_in_eom", "column_exhausted_while_other_continues",
           "bulk_size_1", "policy_fewer", "policy_stop_eom", "empty_subtree_root", "three_roots"]
 shrink_lists = [("roots",), ("mib",), ("faults", "explicit")]
 POLICIES = ["full", "fewer", "partial", "stop_eom"]
@@ -45,8 +45,19 @@ def plan_for(tier: str, seed: int, i: int) -> dict:
     else:
         bulk = rng.randrange(1, 61)
     lossy = rng.random() < 0.2
+    # an earlier bulk walk on the same client (same bulk size, same agent policy) of a sub-tree of a root or of the parent
+    # of a root: nothing remembered from it may change the walk under test
+    prng = rng_for(seed, ID, tier + ":pre", i)
+    pre_roots: List[tuple] = []
+    if prng.random() < 0.3:
+        keys = [o for o, _ in mib]
+        below = [o for o in keys if any(len(o) > len(r) + 1 and o[:len(r)] == r for r in roots)]
+        if below and prng.random() < 0.7:
+            pre_roots = [prng.choice(below)[:-1]]
+        elif roots:
+            pre_roots = [roots[0][:-1]]
     return {
-        "prop": ID, "proto": gen_proto(rng), "mib": mib, "roots": roots,
+        "prop": ID, "pre_roots": pre_roots, "proto": gen_proto(rng), "mib": mib, "roots": roots,
         "api": rng.choice(["bulkwalk", "bulkwalk", "pybulkwalk"]), "bulk": bulk,
         "policies": rng.sample(POLICIES, rng.randrange(1, 5)), "polseed": rng.getrandbits(40),
         "faults": gen.gen_faults(rng, lossy), "lossy": lossy,
@@ -73,6 +84,10 @@ def simplify(plan: dict):
     if plan["api"] == "pybulkwalk":
         p = dict(plan)
         p["api"] = "bulkwalk"
+        yield p
+    if plan.get("pre_roots"):
+        p = dict(plan)
+        p["pre_roots"] = []
         yield p
     if plan["policies"] != ["full"]:
         p = dict(plan)
@@ -171,7 +186,7 @@ def execute(plan: dict) -> dict:
     probes = {
         "dup_oid_in_response": int(dup_in_resp), "partial_last_row": int(partial),
         "response_ends_in_eom": int(ends_eom), "column_exhausted_while_other_continues": int(col_exh),
-        "bulk_size_1": int(bulk == 1), "policy_fewer": int(used.get("fewer", 0) > 0),
+        "bulk_size_1": int(bulk == 1), "earlier_overlapping_bulkwalk": int(bool(plan.get("pre_roots"))), "policy_fewer": int(used.get("fewer", 0) > 0),
         "policy_stop_eom": int(used.get("stop_eom", 0) > 0),
         "empty_subtree_root": int(any(s == 0 for s in sizes)), "three_roots": int(len(roots) >= 3),
     }
